@@ -243,7 +243,7 @@ Definition lp_alloc (p : lprim) (bs : bytes) : N :=
   | PBytes max => claimed_len max bs
   | PUUID => 16
   | PFixed n => N.of_nat n
-  | PBytes17 => match bs with b :: _ => b | [] => 0 end
+  | PBytes17 => match bs with b :: _ => N.min b 255 | [] => 0 end
   | PBytes17V => match van_dec_fshort bs with Ok (n, _) => if (forge_max <? n)%Z then 0 else Z.to_N n | Err _ => 0 end
   | PUUIDStr d => (2 * claimed_len (4 * (if d then 36 else 32))%Z bs + 16)%N
   | PKey => (4 * claimed_len (4 * default_max)%Z bs)%N
